@@ -125,3 +125,185 @@ func verifCopyDir(src, dst string) error {
 	}
 	return nil
 }
+
+
+// aggregateWorks does what the per-chain AggregateMintWork / AggregateRoundSpace loops do
+// (they are off under the aggregator mock): for every chain write the work of its closed
+// rounds in order, crediting a round when the next round starts on the same day, and move
+// the space checkpoint to the given batch.
+func (f *verifFeed) aggregateWorks(batch uint64) error {
+	store := f.node.persistStore
+	for _, cn := range f.node.NodesListWithoutState(f.cursor, true) {
+		id := cn.IdForNetwork
+		chain := f.chain(id)
+		if chain == nil || chain.State == nil {
+			continue
+		}
+		off, err := store.ReadWorkOffset(id)
+		if err != nil {
+			return err
+		}
+		for round := off; round < chain.State.CacheRound.Number; round++ {
+			works, err := store.ReadSnapshotWorksForNodeRound(id, round)
+			if err != nil || len(works) == 0 {
+				return fmt.Errorf("no works for %s round %d: %v", id, round, err)
+			}
+			next, err := store.ReadSnapshotWorksForNodeRound(id, round+1)
+			if err != nil {
+				return err
+			}
+			if len(next) == 0 {
+				break // the following round has no snapshot yet: not mature
+			}
+			credit := works[0].Timestamp/OneDay == next[0].Timestamp/OneDay
+			for _, wk := range works {
+				own := false
+				for _, si := range wk.Signers {
+					own = own || si == id
+				}
+				if !own && len(wk.Signers) > 0 {
+					return fmt.Errorf("harness: snapshot %s of chain %s round %d not signed by its own node (signers %d)", wk.Hash, id, round, len(wk.Signers))
+				}
+			}
+			if err := store.WriteRoundWork(id, round, works, credit); err != nil {
+				return err
+			}
+		}
+		ob, or, err := store.ReadRoundSpaceCheckpoint(id)
+		if err != nil {
+			return err
+		}
+		if ob <= batch {
+			if err := store.WriteRoundSpaceAndState(&common.RoundSpace{NodeId: id, Batch: batch, Round: or}); err != nil {
+				return err
+			}
+		}
+	}
+	return nil
+}
+
+// workDay lets every accepted chain finalize three snapshots in three consecutive rounds
+// during the early hours of the current timeline day (so that two rounds per chain get credited).
+func (f *verifFeed) workDay(w *verifgen.Wallet) error {
+	since := f.cursor - f.net.Epoch
+	target := f.net.Epoch + since/OneDay*OneDay + uint64(time.Hour) + uint64(f.rng.Intn(60))*uint64(time.Second)
+	if target <= f.cursor {
+		target += OneDay
+	}
+	f.cursor = target
+	assets := verifgen.Assets()
+	for k := 0; k < 3; k++ {
+		for _, cn := range f.node.NodesListWithoutState(f.cursor, true) {
+			if !f.node.ConsensusReady(cn, f.cursor) {
+				continue // a freshly accepted node is not a signer yet, so it cannot lead a snapshot
+			}
+			dep, specs := w.Deposit(assets[1+f.rng.Intn(3)], big.NewInt(int64(1+f.rng.Intn(1e6))))
+			ts := f.tick(uint64(100 * time.Millisecond))
+			_, d := f.feedBatch(cn.IdForNetwork, []*common.VersionedTransaction{dep}, ts)
+			if !d.Finalized {
+				_, d = f.feedBatch(cn.IdForNetwork, []*common.VersionedTransaction{dep}, f.tick(uint64(100*time.Millisecond)))
+			}
+			if !d.Finalized {
+				return fmt.Errorf("work snapshot on %s not finalized: %v %v", cn.IdForNetwork, d.Err, d.PanicVal)
+			}
+			w.Applied(dep, specs)
+		}
+		f.cursor += uint64(5 * time.Second) // the next pass opens a new round on every chain
+	}
+	return nil
+}
+
+// buildMint prepares two work days (yesterday and today), aggregates them and builds the
+// universal mint transaction the elected node would propose in today's mint window.
+func (f *verifFeed) buildMint(w *verifgen.Wallet) (crypto.Hash, *common.VersionedTransaction, uint64, error) {
+	var none crypto.Hash
+	if err := f.workDay(w); err != nil {
+		return none, nil, 0, err
+	}
+	f.cursor = f.net.Epoch + ((f.cursor-f.net.Epoch)/OneDay+1)*OneDay
+	if err := f.workDay(w); err != nil {
+		return none, nil, 0, err
+	}
+	batch := (f.cursor - f.net.Epoch) / OneDay
+	if err := f.aggregateWorks(batch); err != nil {
+		return none, nil, 0, err
+	}
+	ts := f.atHour(7+f.rng.Intn(3), 50*time.Minute)
+	if (ts-f.net.Epoch)/OneDay != batch {
+		return none, nil, 0, fmt.Errorf("mint window fell on another day")
+	}
+	eid := f.node.electSnapshotNode(common.TransactionTypeMint, ts)
+	cur, err := f.node.persistStore.ReadCustodian(ts)
+	if err != nil || cur == nil {
+		return none, nil, 0, fmt.Errorf("no custodian: %v", err)
+	}
+	tx := f.node.buildUniversalMintTransaction(cur, ts, false)
+	if tx == nil {
+		return none, nil, 0, fmt.Errorf("the node does not offer a mint at batch %d", batch)
+	}
+	sig := f.keyOf(eid).Sign(tx.PayloadHash())
+	tx.SignaturesMap = []map[uint16]*crypto.Signature{{0: &sig}}
+	return eid, tx, ts, nil
+}
+
+
+// buildPledge funds and builds a node pledge for a fresh candidate, to be proposed by the
+// elected chain at a pledge hour at least 12 h after the latest membership record.
+func (f *verifFeed) buildPledge(w *verifgen.Wallet) (crypto.Hash, *common.VersionedTransaction, uint64, *verifgen.Candidate, error) {
+	var none crypto.Hash
+	xin := verifgen.Assets()[0]
+	f.pledges++
+	cand := verifgen.NewCandidate(fmt.Sprintf("%s:cand:%d", f.net.Label, f.pledges))
+	spec := verifgen.OutSpec{Type: common.OutputTypeScript, Owners: []common.Address{cand.Funder}, Threshold: 1, Amount: common.KernelNodePledgeAmount, Seed: w.Seed()}
+	dep := verifgen.Deposit(w.Custodian, xin.Id, xin.Chain, xin.Key, fmt.Sprintf("0xpledge-%s-%d", f.net.Label, f.pledges), 0, common.KernelNodePledgeAmount, spec)
+	if _, d := f.feedBatch(f.net.NodeIds[1+f.rng.Intn(len(f.net.NodeIds)-1)], []*common.VersionedTransaction{dep}, f.tick(uint64(time.Second))); !d.Finalized {
+		return none, nil, 0, nil, fmt.Errorf("pledge funding not finalized: %v %v", d.Err, d.PanicVal)
+	}
+	funding := verifgen.OutsOf(dep, []verifgen.OutSpec{spec})[0]
+	// a pledge hour (outside 7..9 and 13..19) at least 12 h after every membership record
+	var latest uint64
+	for _, cn := range f.node.NodesListWithoutState(f.cursor+uint64(48*time.Hour), false) {
+		if cn.Timestamp > latest {
+			latest = cn.Timestamp
+		}
+	}
+	if f.cursor < latest+uint64(12*time.Hour) {
+		f.cursor = latest + uint64(12*time.Hour)
+	}
+	ts := f.atHour([]int{21, 22, 23, 1, 2, 3, 4}[f.rng.Intn(7)], 50*time.Minute)
+	eid := f.node.electSnapshotNode(common.TransactionTypeNodePledge, ts)
+	last, _ := f.node.ReadLastConsensusSnapshotWithHack()
+	tx := verifgen.Pledge(cand, funding, last.Transactions)
+	return eid, tx, ts, cand, nil
+}
+
+// buildAccept builds the acceptance of the pledging candidate: round zero of its own chain,
+// 12 h..7 d after the pledge, inside the operation window, signed by the new node itself.
+func (f *verifFeed) buildAccept(cand *verifgen.Candidate) (*common.Snapshot, *common.VersionedTransaction, error) {
+	id := cand.Signer.Hash().ForNetwork(f.net.NetworkId)
+	pn := f.node.PledgingNode(f.cursor + uint64(24*time.Hour))
+	if pn == nil || pn.IdForNetwork != id {
+		return nil, nil, fmt.Errorf("candidate is not the pledging node")
+	}
+	if f.cursor < pn.Timestamp+uint64(12*time.Hour) {
+		f.cursor = pn.Timestamp + uint64(12*time.Hour)
+	}
+	ts := f.atHour(13+f.rng.Intn(6), 50*time.Minute)
+	chain := f.node.getOrCreateChain(id)
+	if chain == nil {
+		return nil, nil, fmt.Errorf("no chain for the pledging node")
+	}
+	tx, err := chain.buildNodeAcceptTransaction(ts, true)
+	if err != nil {
+		return nil, nil, err
+	}
+	sig := cand.Signer.PrivateSpendKey.Sign(tx.PayloadHash())
+	tx.SignaturesMap = []map[uint16]*crypto.Signature{{0: &sig}}
+	if f.extraKeys == nil {
+		f.extraKeys = map[crypto.Hash]crypto.Key{}
+	}
+	f.extraKeys[id] = cand.Signer.PrivateSpendKey
+	s := &common.Snapshot{Version: common.SnapshotVersionCommonEncoding, NodeId: id, RoundNumber: 0, Timestamp: ts, Transactions: []crypto.Hash{tx.PayloadHash()}}
+	s.Hash = s.PayloadHash()
+	return s, tx, nil
+}
